@@ -446,6 +446,13 @@ func (h *simHandler) Mixed(fctx frugal.FContext, m *simsvc.Mixed) (*simsvc.Mixed
 	}
 	return p.ret.(*simsvc.Mixed), nil
 }
+func (h *simHandler) URLFor(fctx frugal.FContext, id string, code int32) (string, error) {
+	p, err := h.enter(fctx, "URLFor", id, code)
+	if err != nil {
+		return "", err
+	}
+	return p.ret.(string), nil
+}
 func (h *simHandler) Many(fctx frugal.FContext, n int32) ([]*simsvc.Item, error) {
 	p, err := h.enter(fctx, "many", n)
 	if err != nil {
@@ -553,6 +560,8 @@ func (env *e2eEnv) invoke(p *callPlan) {
 		p.gotRet, p.gotErr = c.BigString(ctx, p.args[0].(int32), p.args[1].(string))
 	case "mixed":
 		p.gotRet, p.gotErr = c.Mixed(ctx, p.args[0].(*simsvc.Mixed))
+	case "URLFor":
+		p.gotRet, p.gotErr = c.URLFor(ctx, p.args[0].(string), p.args[1].(int32))
 	case "many":
 		p.gotRet, p.gotErr = c.Many(ctx, p.args[0].(int32))
 	case "choose":
